@@ -249,6 +249,9 @@ def run_schedule(basedb: str, scenario: str, sched: list[int], reach: list[dict]
 
 
 def _job(args):
+    import time
+
+    time.sleep = lambda _s: None      # threads run under the baton: real back-off sleeps only slow the replay
     basedb, scenario, scheds, reach, term = args
     return [run_schedule(basedb, scenario, s, reach, term) for s in scheds]
 
